@@ -263,6 +263,11 @@ def main(outdir=None, report_path=None):
     fl, tl = outer("p_cif.py", "P_cif", "_parse_lattice", 1)
     Hlat = record("p_cif.py", fl, tl[0])[0] if tl else []
     cfg["cif"] = {"H": H, "Hlat": Hlat}
+    # for the record only: the try around FindSpaceGroup swallows ValueError (no effect on the outcome kind)
+    fs, ts = outer("p_cif.py", "P_cif", "_parse_space_group_symop_operation_xyz", 0)
+    if fs is not None:
+        for t in [n for n in ast.walk(fs) if isinstance(n, ast.Try)]:
+            record("p_cif.py", fs, t)
 
     def fields(d):
         out = []
